@@ -40,6 +40,7 @@ func c07(c *Ctx) {
 	sState(c, "R7/S-STATE")
 	c10R1(c, "R13/C10.R1")
 	sLockDiscipline(c, "R13/S-LOCK", "commitment")
+	sMainOwned(c, "R14/S-OWNER", "configurations", "leaderState")
 }
 
 func c07R1(c *Ctx, rule string) {
